@@ -369,7 +369,7 @@ func runC14(c *Ctx) {
 		}
 		return m
 	}())
-	perEntry := c.N(220, 9000)
+	perEntry := c.N(220, 45000)
 	for _, entry := range names {
 		var pool [][]byte
 		for _, k := range c14EntrySeeds[entry] {
